@@ -34,17 +34,34 @@ func NewFileStorage(dir string) (Storage, error) {
 }
 
 // Set sets the value for a specific key.
+//
+// The value is written to a temporary file which is then renamed
+// to the final file name. This way the stored value is replaced
+// atomically – a reader (or a restart after a crash) sees either the
+// previous or the new value but never a mixture of both.
 func (f *fileStorage) Set(key string, value []byte) error {
-	file, err := f.fileForWrite(key)
+	path := f.filePathToFile(key)
+	tmp := path + ".tmp"
 
+	file, err := os.OpenFile(tmp, os.O_WRONLY|os.O_CREATE|os.O_TRUNC, 0666)
 	if err != nil {
 		return err
 	}
 
-	defer file.Close()
+	if _, err = file.Write(value); err == nil {
+		err = file.Sync()
+	}
 
-	_, err = file.Write(value)
-	return err
+	if cerr := file.Close(); err == nil {
+		err = cerr
+	}
+
+	if err != nil {
+		os.Remove(tmp)
+		return err
+	}
+
+	return os.Rename(tmp, path)
 }
 
 // Get returns the value for a specific key.
@@ -98,10 +115,6 @@ func (f *fileStorage) dir() string {
 func (f *fileStorage) filePathToFile(file string) string {
 	fname := removeInvalidFileNameCharacters(file)
 	return filepath.Join(f.dir(), fname)
-}
-
-func (f *fileStorage) fileForWrite(key string) (*os.File, error) {
-	return os.OpenFile(f.filePathToFile(key), os.O_WRONLY|os.O_CREATE, 0666)
 }
 
 func (f *fileStorage) fileForRead(key string) (*os.File, error) {
